@@ -32,6 +32,7 @@ Core-only Lean; no Mathlib. No fuel anywhere in assembly: termination of the spl
 the redirect loop is proved (`termination_by` / `decreasing_by`) from the memo / `redirectHistory`.
 -/
 import CV.Proto
+set_option linter.unusedVariables false
 namespace CV.Chain
 
 /-! ### association lists (Go maps; keys unique on the Go side) -/
@@ -503,44 +504,49 @@ def isHashBased (lb : Option String) : Bool :=
   | some p => p = "maglev" || p = "ring_hash"
   | none => false
 
-/-- subset check, timeouts, target decoration, external-SNI restrictions, mesh gateway mode, retain -/
+/-- the mutations `getResolverNode` applies to the target it ended with (timeouts, subset definition,
+    external SNI, mesh-gateway mode), plus whether the connect-timeout / mesh-gateway override took effect -/
+def decorate (es : Entries) (cx : Ctx) (st : St) (t : Target) (r : Resolver) : TInfo × Bool × Bool :=
+  let ct0 := if r.ct < 1 then 5 else r.ct
+  let over := decide (cx.ovCT > 0) && decide (ct0 ≠ cx.ovCT)
+  let ct := if over then cx.ovCT else ct0
+  -- the *pointer* the loop ended with: the loaded target carrying earlier mutations
+  let info0 : TInfo := match alook t.id st.loaded with
+    | some i => i
+    | none => { t := t }
+  let sd := alook t.svc es.services
+  let extNow := match sd with
+    | some d => decide (d.extSNI ≠ "")
+    | none => false
+  let ext := info0.external || extNow
+  let sni := match sd with
+    | some d => if d.extSNI ≠ "" then d.extSNI else info0.sni
+    | none => info0.sni
+  let mgw1 := match sd with
+    | some d => d.mgw
+    | none => info0.mgw
+  let mgw2 := match es.proxy with
+    | some pd => if mgw1 = "" then pd.mgw else mgw1
+    | none => mgw1
+  let overM := !ext && decide (cx.ovMgw ≠ "") && decide (mgw2 ≠ cx.ovMgw)
+  let mgw := if ext then "" else if overM then cx.ovMgw else mgw2
+  let sdef := match alook t.subset r.subsets with
+    | some d => d
+    | none => 0           -- Go map zero value
+  ({ info0 with ct := ct, external := ext, sni := sni, mgw := mgw, subsetDef := sdef }, over, overM)
+
+/-- subset check, target decoration, external-SNI restrictions, retain, node construction -/
 def finishResolve (es : Entries) (cx : Ctx) (st : St) (t : Target) (r : Resolver) : Except Err (St × Node) :=
   if t.subset ≠ "" && !r.subsetExists t.subset then .error .noSubset
   else
-    let ct0 := if r.ct < 1 then 5 else r.ct
-    let over := decide (cx.ovCT > 0) && decide (ct0 ≠ cx.ovCT)
-    let ct := if over then cx.ovCT else ct0
-    -- the *pointer* the loop ended with: the loaded target carrying earlier mutations
-    let info0 : TInfo := match alook t.id st.loaded with
-      | some i => i
-      | none => { t := t }
-    let sd := alook t.svc es.services
-    let extNow := match sd with
-      | some d => decide (d.extSNI ≠ "")
-      | none => false
-    let ext := info0.external || extNow
-    let sni := match sd with
-      | some d => if d.extSNI ≠ "" then d.extSNI else info0.sni
-      | none => info0.sni
-    if ext && r.redirect.isSome then .error .extRedirect
-    else if ext && !r.subsets.isEmpty then .error .extSubsets
-    else if ext && !r.failover.isEmpty then .error .extFailover
+    let d := decorate es cx st t r
+    if d.1.external && r.redirect.isSome then .error .extRedirect
+    else if d.1.external && !r.subsets.isEmpty then .error .extSubsets
+    else if d.1.external && !r.failover.isEmpty then .error .extFailover
     else
-      let mgw1 := match sd with
-        | some d => d.mgw
-        | none => info0.mgw
-      let mgw2 := match es.proxy with
-        | some pd => if mgw1 = "" then pd.mgw else mgw1
-        | none => mgw1
-      let overM := !ext && decide (cx.ovMgw ≠ "") && decide (mgw2 ≠ cx.ovMgw)
-      let mgw := if ext then "" else if overM then cx.ovMgw else mgw2
-      let sdef := match alook t.subset r.subsets with
-        | some d => d
-        | none => 0           -- Go map zero value
-      let info : TInfo := { info0 with ct := ct, external := ext, sni := sni, mgw := mgw, subsetDef := sdef }
-      .ok ({ st with loaded := aset t.id info st.loaded, retained := t.id :: st.retained,
-                     custCT := st.custCT || over, custMgw := st.custMgw || overM },
-           .resolver r.isDefault ct r.rt t.id [] r.lb)
+      .ok ({ st with loaded := aset t.id d.1 st.loaded, retained := t.id :: st.retained,
+                     custCT := st.custCT || d.2.1, custMgw := st.custMgw || d.2.2 },
+           .resolver r.isDefault d.1.ct r.rt t.id [] r.lb)
 
 /-- `getResolverNode` up to `recordNode` — shared by the normal and the `recursedForFailover` mode -/
 def resolveCore (es : Entries) (cx : Ctx) (st : St) (t : Target) :
@@ -904,5 +910,115 @@ def compileWith (order : List (String × Node) → List String) (es : Entries) (
 /-- `discoverychain.Compile` (repaired flatten: node keys in sorted order) -/
 def compile (es : Entries) (cx : Ctx) : Except Err Chain :=
   compileWith (fun nodes => sortKeys (akeys nodes)) es cx
+
+/-! ### the config-entry store: writes are validated by speculative compilation
+
+`ensureConfigEntryTxn` / `deleteConfigEntryTxn` → `validateProposedConfigEntryInGraph` →
+`validateProposedConfigEntryInServiceGraph`: the chains to re-check are the entry's own name plus the
+names of stored router / splitter / resolver entries that reference it directly (memdb `link` index over
+`ListRelatedServices`, read BEFORE the mutation); for proxy-defaults every name that has a router,
+splitter or resolver entry. Each is compiled with the proposed entry overriding the stored one
+(`testCompileDiscoveryChain`: namespace/partition `default`, datacenter `dc1`). Any error rejects the
+write and the transaction is aborted. Which chain's error is reported depends on Go map order, so the
+model only says *rejected*.
+
+The speculative compile reads its inputs through `readDiscoveryChainConfigEntriesTxn`, which collects
+the entries reachable through `ListRelatedServices`; the model compiles against the whole proposed
+store instead (the two agree unless a failover target names a *peer* — those are not followed by the
+collector but are looked up by the compiler; the generators keep peers out of the store sequences). -/
+
+inductive Kind | router | splitter | resolver | service | proxy
+deriving DecidableEq, Repr
+
+inductive Entry
+  | router   (name : String) (routes : List Route)
+  | splitter (name : String) (splits : List Split)
+  | resolver (name : String) (r : Resolver)
+  | service  (name : String) (d : SvcDef)
+  | proxy    (d : ProxyDef)
+deriving DecidableEq, Repr
+
+def Entry.kind : Entry → Kind
+  | .router .. => .router | .splitter .. => .splitter | .resolver .. => .resolver
+  | .service .. => .service | .proxy .. => .proxy
+
+def Entry.name : Entry → String
+  | .router n _ => n | .splitter n _ => n | .resolver n _ => n | .service n _ => n | .proxy _ => "global"
+
+def adel {α : Type} (k : String) (l : List (String × α)) : List (String × α) := l.filter fun kv => kv.1 ≠ k
+
+/-- upsert -/
+def Entries.put (S : Entries) : Entry → Entries
+  | .router n x => { S with routers := aset n x S.routers }
+  | .splitter n x => { S with splitters := aset n x S.splitters }
+  | .resolver n x => { S with resolvers := aset n x S.resolvers }
+  | .service n x => { S with services := aset n x S.services }
+  | .proxy x => { S with proxy := some x }
+
+def Entries.del (S : Entries) (k : Kind) (n : String) : Entries :=
+  match k with
+  | .router => { S with routers := adel n S.routers }
+  | .splitter => { S with splitters := adel n S.splitters }
+  | .resolver => { S with resolvers := adel n S.resolvers }
+  | .service => { S with services := adel n S.services }
+  | .proxy => { S with proxy := none }
+
+def Entries.has (S : Entries) (k : Kind) (n : String) : Bool :=
+  match k with
+  | .router => (alook n S.routers).isSome
+  | .splitter => (alook n S.splitters).isSome
+  | .resolver => (alook n S.resolvers).isSome
+  | .service => (alook n S.services).isSome
+  | .proxy => S.proxy.isSome && n = "global"
+
+/-- `ServiceRouterConfigEntry.ListRelatedServices` (always contains the router's own name) -/
+def routerRelated (name : String) (routes : List Route) : List String :=
+  name :: routes.map fun r => dflt r.dest.svc name
+
+/-- `ServiceSplitterConfigEntry.ListRelatedServices` -/
+def splitterRelated (name : String) (splits : List Split) : List String :=
+  (splits.map fun s => dflt s.svc name).filter (· ≠ name)
+
+/-- `ServiceResolverConfigEntry.ListRelatedServices` (peer failover targets are skipped) -/
+def resolverRelated (name : String) (r : Resolver) : List String :=
+  let rd := match r.redirect with
+    | some o => [dflt o.svc name]
+    | none => []
+  let fo := r.failover.flatMap fun kf =>
+    if kf.2.targets.isEmpty then [dflt kf.2.svc name]
+    else (kf.2.targets.filter (·.peer = "")).map fun t => dflt t.svc name
+  (rd ++ fo).filter (· ≠ name)
+
+/-- names of stored router / splitter / resolver entries whose link index contains `n` -/
+def linkers (S : Entries) (n : String) : List String :=
+  (S.routers.filter fun kv => (routerRelated kv.1 kv.2).contains n).map (·.1) ++
+  (S.splitters.filter fun kv => (splitterRelated kv.1 kv.2).contains n).map (·.1) ++
+  (S.resolvers.filter fun kv => (resolverRelated kv.1 kv.2).contains n).map (·.1)
+
+/-- `checkChains` -/
+def affected (S : Entries) (k : Kind) (n : String) : List String :=
+  match k with
+  | .proxy => akeys S.routers ++ akeys S.splitters ++ akeys S.resolvers
+  | _ => n :: linkers S n
+
+/-- the request `testCompileDiscoveryChain` uses -/
+def storeCtx (svc : String) : Ctx := { svc := svc }
+
+def compiles (S : Entries) (svc : String) : Bool :=
+  match compile S (storeCtx svc) with
+  | .ok _ => true
+  | .error _ => false
+
+/-- `Store.EnsureConfigEntry`: `none` = rejected (transaction aborted) -/
+def ensureEntry (S : Entries) (e : Entry) : Option Entries :=
+  let S' := S.put e
+  if (affected S e.kind e.name).all (compiles S') then some S' else none
+
+/-- `Store.DeleteConfigEntry`: deleting an absent entry is a no-op that succeeds -/
+def deleteEntry (S : Entries) (k : Kind) (n : String) : Option Entries :=
+  if !S.has k n then some S
+  else
+    let S' := S.del k n
+    if (affected S k n).all (compiles S') then some S' else none
 
 end CV.Chain
